@@ -151,6 +151,7 @@ def run(ck):
     gets = [cs for cs in T.calls(lb, name=("get", "get_mut"), path="SourceList") if cs.bb in dl.blocks]
     pe_ok, pe_err, _ = T.result_split(lb, dl.pe.bb)
     final = None
+    final_score = -1
     for u in unregs:
         for g in gets:
             # u is decided by a switch whose operand derives from g
@@ -164,7 +165,12 @@ def run(ck):
                 for edges, pol in ((tr, True), (fa, False)):
                     ed = [(i, x) for x in edges]
                     if ed and T.reachable_only_via(lb, u.bb, ed, frm=[g.to], barrier=[dl.header]) and u.bb in lb.reachable([x for _, x in ed]):
-                        final = (u, g, i, pol, ed)
+                        cand = (u, g, i, pol, ed)
+                        # several switches may be tainted by the lookup (drop elaboration, inlined helpers):
+                        # the removed-check is the one whose selected edge always leads to the unregister
+                        score = (T.t2_all_exits(lb, [x for _, x in ed], [u.bb], exits={dl.header}) is None) + (T.eval_combinators(lb, t["on"], {g.bb: "Err"}) == ("const", 1 if pol else 0))
+                        if final is None or score > final_score:
+                            final, final_score = cand, score
     if final is None:
         ck.violation("2", "T2-all-exits", lb, "post-dispatch-removed-check", "the batch loop has no 'slot empty => unregister' check after process_events: a source removed from inside its own callback (where unregister is deferred) would stay registered", site=lb.where(dl.pe.bb))
     else:
